@@ -874,10 +874,10 @@ impl Scenario for RxSim {
                 prog_ops = others_before;
             }
         }
-        let slots = (p.cfg.get_u("slots") as usize).clamp(1, 8);
+        let slots = (p.cfg.get_u("slots") as usize).clamp(1, 256);
         let maxpdu = (p.cfg.get_u("maxpdu") as usize).clamp(1, 70_000);
         let bufsize = (p.cfg.get_u("bufsize") as usize).clamp(maxpdu, 140_000);
-        let nbuf = (p.cfg.get_u("nbuf") as usize).min(slots + 2);
+        let nbuf = (p.cfg.get_u("nbuf") as usize).min(slots + 2).min(12);
         let table = dec_table(p.cfg.get_h("table"));
         let rx = RxNode::new(slots, maxpdu, table.clone(), false);
         let mut w = World { target, rx, refrx: RefRx::default(), table, allowed: None, bufsize, log: H64::new(), decaps: 0, completed: 0, faults_in_train: 0, rejected_after_take: 0, viol: None, prefix: vec![], cfg: p.cfg.clone() };
@@ -1373,10 +1373,13 @@ pub mod gen {
         let cr = crcref();
         let lab = label(rng, false);
         let n = rng.usize_in(2, 5);
-        let len = rng.usize_in(n, 200);
+        let tiny = rng.chance(1, 6);
+        let len = if tiny { rng.usize_in(0, 2) } else { rng.usize_in(n, 200) };
         let pdu = pdu_bytes(len, rng.next());
         let pt = 0x0800;
-        let announced: u16 = match rng.below(8) {
+        let announced: u16 = match if tiny { 8 + rng.below(2) } else { rng.below(8) } {
+            8 => rng.range(1, 3 + lab.len() as u64) as u16, // smaller than protocol type + label: nothing can match it
+            9 => (len + 2 + lab.len()) as u16,
             0 => 0,
             1 => 65535,
             2 => (len + 2 + lab.len()) as u16 + 1,
@@ -1441,7 +1444,7 @@ pub mod gen {
 
     pub fn generate(target: &str, idx: u64, rng: &mut Rng, tier: Tier) -> Program {
         // rare: trains longer than the 16-bit counters (C03 silent corruption / C05 totality / C16 recovery)
-        if matches!(target, "C03" | "C05") && idx % 997 == 996 {
+        if matches!(target, "C03" | "C05" | "C08" | "C16") && idx % 997 == 996 {
             return long_train(rng);
         }
         match target {
@@ -1653,7 +1656,7 @@ pub mod gen {
         let table = std_table();
         // state class: open contexts x label memory x free list fill x storage vs fragment size
         let class = rng.below(48);
-        let slots = rng.usize_in(1, 3);
+        let slots = if rng.chance(1, 50) { 256 } else { rng.usize_in(1, 3) };
         let small_storage = (class / 12) % 2 == 1;
         let maxpdu = if small_storage { rng.usize_in(1, 6) } else { 64 };
         let nbuf = match (class / 24) % 2 {
@@ -1715,6 +1718,42 @@ pub mod gen {
                         }
                     }
                     6 => ops.push(Op::new("prov").u("size", rng.range(1, 80))),
+                    7 if rng.chance(1, 2) => {
+                        // storage-boundary probe: a label in memory, then packets of every kind and label type
+                        // whose payload is the storage size + d (d in -2..=8), also split over fragments
+                        let keep = Desc { kind: Kind::Complete, lt: LT_6, frag_id: 0, total_len: 0, ptype: 0x0800, label: &[1, 2, 3, 4, 5, 6], exts: &[], final_mandatory: false, payload: &[7], crc: 0 };
+                        ops.push(feed(wire::serialise(&keep, None), 0));
+                        let d = rng.range(0, 10) as i64 - 2;
+                        let want = (maxpdu as i64 + d).max(0) as usize;
+                        let lab = *rng.pick(&[Lab::ReUse, Lab::ReUse, L3A, L6A, Lab::Bcast]);
+                        fid = fid.wrapping_add(1);
+                        match rng.below(4) {
+                            0 => {
+                                let pl = rng.bytes(want);
+                                let dd = Desc { kind: Kind::Complete, lt: lab.lt(), frag_id: 0, total_len: 0, ptype: 0x0800, label: lab.bytes(), exts: &[], final_mandatory: false, payload: &pl, crc: 0 };
+                                ops.push(feed(wire::serialise(&dd, None), 10));
+                            }
+                            1 => {
+                                let pdu = pdu_bytes(want + 10, rng.next());
+                                let t = fragment(&pdu, fid, 0x0800, &lab, &[], false, 2, Some(&[want]));
+                                for p in t {
+                                    ops.push(feed(p, 10));
+                                }
+                            }
+                            _ => {
+                                let first = rng.usize_in(0, want.min(8));
+                                let pdu = pdu_bytes(want.max(first) + rng.usize_in(0, 3), rng.next());
+                                let mut cuts = vec![first];
+                                if rng.chance(1, 2) {
+                                    cuts.push(want.max(first).min(pdu.len()));
+                                }
+                                let t = fragment(&pdu, fid, 0x0800, &lab, &[], false, cuts.len() + 1, Some(&cuts));
+                                for p in t {
+                                    ops.push(feed(p, 10));
+                                }
+                            }
+                        }
+                    }
                     _ => ops.push(Op::new("memfault").u("op", rng.below(5)).u("nth", rng.below(3))),
                 }
             }
@@ -1821,7 +1860,7 @@ pub mod gen {
 
     fn gen_c16(rng: &mut Rng) -> Program {
         let table = std_table();
-        let slots = rng.usize_in(1, 4);
+        let slots = if rng.chance(1, 50) { 256 } else { rng.usize_in(1, 4) };
         let maxpdu = *rng.pick(&[16usize, 64, 200]);
         let nbuf = rng.usize_in(0, slots + 2);
         let class = rng.below(48);
